@@ -110,6 +110,8 @@ class C03(Prop):
         j = Judgement()
         bl.compare_portfolio(case, impl, mod, self.FIELDS, j)
         pnl_predicate_pf(case, impl, j)
+        for rs in impl.get('restored', []):
+            j.failures.append('a Position rebuilt from the stored fields of %s with the documented constructor differs (%s): %s' % (rs[0], rs[1], rs[2:]))
         for sp in impl.get('sparse_reads', []):
             j.failures.append('the same fills, P&L read only every third step: step %s reads %s, read after every step it was %s' % tuple(sp[:3]))
         sig = tuple((op[0], (op[2] > 0) if op[0] == 'txn' else None, tuple((h[0], h[1] > 0) for h in st['pub']))
